@@ -21,7 +21,7 @@ RULE = ("worlds with three-phase mixed-sign constraint matrices (1-6 constraints
         "distinct phase angles; distinct = history signature + probe pattern")
 PROBES = ["probe", "concurrent_callers", "negative_limit_probe", "algorithm_side_default_tolerances", "creeping_schedule_probe", "non_finite_entry_probe", "probe_within_2tol_mixed_sign", "explicit_tolerances", "rel_tol_dominates", "linear_probe", "multi_period",
           "negative_entries", "one_dim_vector", "constraint_free_world", "constraint_free_sorted_completed", "dict_omitted_rows",
-          "executed_columns_checked", "invalid_schedule_warning_seen", "probe_after_reconfig", "exact_boundary_probe", "tolerances_retuned_between_questions", "long_schedule_with_overloaded_tail", "neighbouring_site_asked_in_between", "infrastructure_description_edited_and_asked_again",
+          "executed_columns_checked", "invalid_schedule_warning_seen", "probe_after_reconfig", "exact_boundary_probe", "tolerances_retuned_between_questions", "interface_dict_first_row_integer_typed", "long_schedule_with_overloaded_tail", "neighbouring_site_asked_in_between", "infrastructure_description_edited_and_asked_again",
           "exactly_at_limit_plus_tol", "exact_linear_probe"]
 FAULT_DIMENSION = ("environment fault only: the operator changes a constraint limit between two periods (all three checkers must "
                    "follow); otherwise state/message distribution (pure function); probes are messages the party sends during a run")
@@ -183,6 +183,18 @@ def probe_once(out, sc, nw, iface, r, tag, cons, neighbour=None):
         d[ids[i]] = list(M[i])
     if not d:
         d[ids[0]] = list(M[0])
+    rit = sub(sc["seed"], "int_first_row", tag, T)
+    if rit.random() < 0.25:
+        # the mapping's FIRST entry is integer-typed (a row of whole amps written as ints, or an idle station's [0, 0, ..]): the other
+        # rows stay fractional
+        zero_rows = [k_ for k_ in d if all(float(x) == int(x) for x in d[k_])]
+        if zero_rows:
+            k0 = rit.choice(zero_rows)
+            row0 = [int(x) for x in d[k0]]
+            if rit.random() < 0.5:
+                row0 = np.array(row0, dtype=np.int64)
+            d = dict([(k0, row0)] + [(k_, v_) for k_, v_ in d.items() if k_ != k0])
+            out.probe("interface_dict_first_row_integer_typed")
     if omitted:
         out.probe("dict_omitted_rows")
     if neighbour is not None:
